@@ -1,0 +1,27 @@
+//go:build verif
+
+package lang
+
+import "sync/atomic"
+
+// Scheduling-perturbation hook for the verification harness (properties C03, C32).
+// With the `verif` build tag the harness may install a callback that is invoked at
+// the points where the interpreter hands work to another goroutine (process spawn,
+// process start, process teardown). Without the tag verifYield is an empty function.
+
+var verifYieldFn atomic.Pointer[func(site string)]
+
+// VerifSetYield installs (or, with nil, removes) the scheduling-perturbation callback.
+func VerifSetYield(fn func(site string)) {
+	if fn == nil {
+		verifYieldFn.Store(nil)
+		return
+	}
+	verifYieldFn.Store(&fn)
+}
+
+func verifYield(site string) {
+	if fn := verifYieldFn.Load(); fn != nil {
+		(*fn)(site)
+	}
+}
